@@ -38,8 +38,8 @@ X = lambda name: D(name, "--mem", "exact")  # noqa: E731
 
 PLAN = {
     "C01": {"mc": ["MC_Frag", "MC_FragReal"], "drivers": TX + [D("faults"), D("fuzzrx"), D("interleave"), D("frames"), D("memfaults")] + UT},
-    "C02": {"mc": ["MC_Frag", "MC_FragReal", "MC_FragLive", "MC_Rx"], "drivers": TX + RX + UT},
-    "C03": {"mc": ["MC_Rx", "MC_Crc"], "drivers": [RXGEN, D("faults"), D("chains"), D("ext"), D("fuzzrx"), D("interleave"), D("frames"), D("memfaults"), D("labels"), X("faults")] + UT},
+    "C02": {"mc": ["MC_Frag", "MC_FragReal", "MC_FragLive", "MC_Rx"], "drivers": TX + RX + UT + [D("custcrc")]},
+    "C03": {"mc": ["MC_Rx", "MC_Crc"], "drivers": [RXGEN, D("faults"), D("chains"), D("ext"), D("fuzzrx"), D("interleave"), D("frames"), D("memfaults"), D("labels"), X("faults"), D("custcrc")] + UT},
     "C04": {"apalache": ["ApaLabels"], "mc": ["MC_Labels"], "drivers": [D("labels"), LABGEN, D("chains"), D("lattice"), D("ext"), D("faults"), D("fuzzrx"), D("memfaults"), D("interleave"), D("frames")]},
     "C05": {"mc": ["MC_Wire", "MC_Rx"], "drivers": [D("fuzzrx"), D("faults"), D("ext"), D("chains"), D("labels"), D("interleave"), D("frames"), D("memfaults"), RXGEN, RXGENF, X("fuzzrx")] + UT},
     "C06": {"mc": ["MC_Frag", "MC_FragReal", "MC_Wire"], "drivers": TX + [D("interleave"), D("frames")] + UT},
@@ -49,7 +49,7 @@ PLAN = {
     "C09": {"mc": ["MC_Labels", "MC_Frag"], "drivers": TX + [D("interleave"), D("frames")] + UT},
     "C10": {"mc": ["MC_Wire", "MC_Rx"], "drivers": [D("frames"), D("chains"), D("ext"), D("lattice"), D("labels"), D("faults"), D("fuzzrx"), D("interleave"), D("memfaults"), RXGEN, RXGENF] + UT},
     "C11": {"mc": ["MC_Frag", "MC_FragReal", "MC_FragLive"], "drivers": TX + [D("interleave"), D("frames")] + UT},
-    "C12": {"mc": ["MC_Crc"], "drivers": [D("crc"), D("chains"), D("lattice"), D("ext"), D("labels"), D("faults"), D("fuzzrx"), D("interleave"), D("frames"), D("memfaults")] + UT},
+    "C12": {"mc": ["MC_Crc"], "drivers": [D("crc"), D("custcrc"), D("chains"), D("lattice"), D("ext"), D("labels"), D("faults"), D("fuzzrx"), D("interleave"), D("frames"), D("memfaults")] + UT},
     "C13": {"mc": ["MC_Wire", "MC_Frag"], "drivers": [D("extnew"), D("ext"), D("lattice"), D("chains"), D("labels"), LABGEN, D("faults"), D("fuzzrx"), D("interleave"), D("frames"), D("memfaults")] + UT},
     "C14": {"mc": ["MC_Header"], "drivers": [D("hdr"), D("fuzzrx"), D("frames"), D("labels")], "exhaustive": True},
     "C15": {"apalache": ["ApaLabels"], "mc": ["MC_Labels"], "drivers": [D("labels"), LABGEN, D("lattice"), D("chains"), D("ext"), D("interleave"), D("frames")]},
